@@ -7,7 +7,7 @@
 use std::{
     collections::HashMap,
     hash::{BuildHasher, Hash},
-    time::{Duration, Instant},
+    time::{Duration, Instant, SystemTime},
 };
 
 #[cfg(feature = "serde1")]
@@ -18,6 +18,18 @@ pub mod serde;
 /// for a delay beyond its range of roughly 2.18 years, so a deadline further away than this is
 /// enforced at this horizon instead.
 pub(crate) const MAX_TIMER_DELAY: Duration = Duration::from_secs(365 * 24 * 60 * 60);
+
+/// Renders a deadline as an RFC 3339 wall-clock timestamp, for tracing. A deadline too far away to
+/// be written as one (beyond the year 9999, or overflowing the system clock) is rendered as the
+/// latest representable timestamp, so that formatting cannot fail.
+pub(crate) fn deadline_rfc3339(deadline: &Instant) -> humantime::Rfc3339Timestamp {
+    // 9999-12-31T23:59:59Z, the last second `humantime::format_rfc3339` can render.
+    let latest = SystemTime::UNIX_EPOCH + Duration::from_secs(253_402_300_799);
+    let deadline = SystemTime::now()
+        .checked_add(deadline.time_until())
+        .map_or(latest, |deadline| deadline.min(latest));
+    humantime::format_rfc3339(deadline)
+}
 
 /// Extension trait for [Instants](Instant) in the future, i.e. deadlines.
 pub trait TimeUntil {
